@@ -61,6 +61,7 @@ const ENTRIES: &[(&str, Entry)] = &[
     ("h_c15_expr", h_echo::h_c15_expr),
     ("h_c16_infer", h_echo::h_c16_infer),
     ("h_c06_rollback", h_echo::h_c06_rollback),
+    ("h_c07_batch", h_echo::h_c07_batch),
     ("h_c14_integer", h_number::h_c14_integer),
     ("h_c23_temperature", h_temperature::h_c23_temperature),
     ("h_c02_solve", h_constraints::h_c02_solve),
